@@ -27,7 +27,7 @@ NewClient(lg, v111, http) ==
 InitO(tr) ==
     [tr |-> tr, conns |-> <<>>, ann |-> <<>>, norm |-> <<>>, keyn |-> <<>>,
      mqsubs |-> {}, mqpend |-> <<>>, handed |-> <<>>, window |-> {},
-     refetch |-> <<>>, ctrig |-> <<>>, resets |-> <<>>, thr |-> <<>>, stop |-> [l |-> 0, cause |-> "", open |-> {}], down |-> FALSE, hadStop |-> FALSE, final |-> FALSE, resetObl |-> {}, keyq |-> <<>>, qev |-> <<>>, ce |-> <<>>, sq |-> <<>>, rq |-> <<>>, sa |-> <<>>, rst |-> <<>>]
+     refetch |-> <<>>, ctrig |-> <<>>, resets |-> <<>>, thr |-> <<>>, stop |-> [l |-> 0, cause |-> "", open |-> {}], down |-> FALSE, hadStop |-> FALSE, final |-> FALSE, resetObl |-> {}, keyq |-> <<>>, qev |-> <<>>, ce |-> <<>>, sq |-> <<>>, rq |-> <<>>, sa |-> <<>>, rst |-> <<>>, csub |-> <<>>]
 
 Short(s) == IF Len(s) > 48 THEN SubSeq(s, 1, 24) \o "...(" \o ToString(Len(s)) \o " characters)" ELSE s
 
@@ -424,9 +424,20 @@ H_note0(r) ==
                 \* an evicted entry takes the state of its resources with it (a later entry of the name starts afresh)
                 rst2 == IF r.kind = "cacheEvict" /\ r.done THEN [k \in {x \in DOMAIN o.rst : Get(o.keyn, x, x) # r.n /\ x # r.n} |-> o.rst[k]] ELSE o.rst
                 \* mqUnsubscribe drops what was still queued on the evicted entry (service events for a resource nobody uses)
+                \* C11: which connections are registered as subscribers of which cached resource
+                KeyStr(n, q) == IF q = "" THEN n ELSE n \o "?" \o q
+                RemOne(sq, c) == IF \E i \in DOMAIN sq : sq[i] = c
+                                 THEN LET i0 == CHOOSE i \in DOMAIN sq : sq[i] = c IN [j \in 1..(Len(sq) - 1) |-> IF j < i0 THEN sq[j] ELSE sq[j + 1]]
+                                 ELSE sq
+                cs2 == CASE r.kind = "cacheAddSub" /\ r.state # 1 -> Put(o.csub, r.key, Append(Get(o.csub, r.key, <<>>), r.c))
+                         [] r.kind = "cacheUnsub" /\ r.removed /\ "c" \in DOMAIN r -> Put(o.csub, r.key, RemOne(Get(o.csub, r.key, <<>>), r.c))
+                         [] r.kind \in {"cacheDelete", "cacheGetErr"} -> Put(o.csub, r.key, <<>>)
+                         [] r.kind = "cacheLink" -> Put(Put(o.csub, KeyStr(r.n, r.to), Get(o.csub, KeyStr(r.n, r.to), <<>>) \o Get(o.csub, r.key, <<>>)), r.key, <<>>)
+                         [] r.kind = "cacheEvict" /\ r.done -> [k \in {x \in DOMAIN o.csub : Get(o.keyn, x, x) # r.n /\ x # r.n} |-> o.csub[k]]
+                         [] OTHER -> o.csub
                 rq2 == IF r.kind = "cacheEvict" /\ r.done /\ "ep" \in DOMAIN r /\ r.ep \in DOMAIN o.rq
                        THEN Put(o.rq, r.ep, [o.rq[r.ep] EXCEPT !.x = [@ EXCEPT !.ql = 0]]) ELSE o.rq
-            IN Res([o EXCEPT !.ce = Put(@, r.n, st.x), !.rst = rst2, !.rq = rq2], {V("C09", "cache entry " \o Short(r.n) \o ": " \o m, "") : m \in st.errs})
+            IN Res([o EXCEPT !.ce = Put(@, r.n, st.x), !.rst = rst2, !.rq = rq2, !.csub = cs2], {V("C09", "cache entry " \o Short(r.n) \o ": " \o m, "") : m \in st.errs})
       [] r.kind \in RQNotes /\ "ep" \in DOMAIN r /\ ~o.hadStop /\ o.stop.l = 0 ->
             \* C13 / C15: the resource's work queue and its query-event lock follow ResQueue.tla (per entry object:
             \* an evicted entry's worker may still run after a new entry of the same name exists)
@@ -465,6 +476,8 @@ H_note(r) ==
 H_msub(r) ==
     Res([o EXCEPT !.mqsubs = @ \cup {r.ns}],
         (IF r.bad THEN {V("C14", "subscription on malformed subject " \o r.ns, "")} ELSE {})
+        \* C20: no client connection is set up once a Stop / connection loss is being handled or the service is stopped
+        \cup (IF r.kind = "conn" /\ (o.stop.l > 0 \/ o.down) THEN {V("C20", "a client connection was set up (" \o r.ns \o ") while the service is stopping or stopped", "")} ELSE {})
         \cup (IF r.dup THEN {V("C09", "second subscription on " \o r.ns \o " while one exists", "")} ELSE {}))
 
 H_munsub(r) ==
@@ -751,6 +764,10 @@ H_quiescent(r) ==
            \cup (IF o.hadStop THEN {} ELSE UNION {{V(e.p, "subscription " \o Short(o.sq[sp].rid) \o " of " \o o.sq[sp].c \o ": " \o e.m, "") : e \in SQTQuiescent(o.sq[sp].x)} : sp \in DOMAIN o.sq})
            \cup (IF o.hadStop THEN {} ELSE UNION {{V(e.p, "work queue of " \o Short(o.rq[ep].n) \o ": " \o e.m, "") : e \in RQQuiescent(o.rq[ep].x)} : ep \in DOMAIN o.rq})
            \cup (IF o.hadStop THEN {} ELSE UNION {{V(e.p, "cached resource " \o Short(k) \o ": " \o e.m, "") : e \in RSTQuiescent(o.rst[k])} : k \in DOMAIN o.rst})
+           \cup (IF o.hadStop THEN {}
+                 ELSE UNION {{V("C11", "closed connection " \o o.csub[k][i] \o " is still registered as a subscriber of cached resource " \o Short(k), "")
+                              : i \in {j \in DOMAIN o.csub[k] : o.csub[k][j] \in DOMAIN o.conns /\ ~o.conns[o.csub[k][j]].alive /\ o.csub[k][j] \notin SeqToSet(r.conns)}}
+                             : k \in DOMAIN o.csub})
            \cup (IF o.hadStop THEN {} ELSE UNION {{V("C09", "cache entry " \o Short(n) \o ": " \o m, "") : m \in CEQuiescent(o.ce[n])} : n \in DOMAIN o.ce})
            \cup UNION {{V("C13", "no query request for cached query " \o k \o " on query event " \o sj, "")
                         : k \in {x \in o.qev[sj].must \ o.qev[sj].got : QSubscribed(x) /\ AnnOf(o.ann, x).st = "ld"}} : sj \in DOMAIN o.qev}
@@ -791,7 +808,8 @@ Handle(r) ==
       [] r.e = "started" -> Res([o EXCEPT !.down = FALSE], {})
       [] r.e = "startfail" -> Res(o, {V("C20", "Start after Stop failed: " \o r.err, "")})
       [] r.e = "openRefused" -> Res(o, IF r.upgraded THEN {V("C20", "a WebSocket connection was accepted while the service is stopped", "")} ELSE {})
-      [] r.e = "open" -> H_open(r)
+      [] r.e = "open" -> LET b == H_open(r)
+                         IN IF o.stop.l > 0 THEN Res(b.o, b.v \cup {V("C20", "connection " \o r.c \o " accepted while Stop / connection loss handling is in progress", "")}) ELSE b
       [] r.e = "close" -> H_close(r)
       [] r.e = "sockClosed" -> H_close(r)
       [] r.e = "creq" -> H_creq(r)
